@@ -129,14 +129,25 @@ theorem tie_rel (r : Rel) (a b : E) : gen reg Γ (.ex (.rel r a b)) = mdl reg Γ
   cases _root_.Infer.traverse reg Γ b <;> simp [checkUnit_tie]
 
 
-theorem tie_and (a b : E) : gen reg Γ (.ex (.and a b)) = mdl reg Γ (.and a b) := by
+/-- two-operand `And` (the view shows the flat operand list `Sym.andArgs`; more operands: Tie/InferNary.lean) -/
+theorem tie_and (a b : E) (hna : ∀ x y, a ≠ .and x y) : gen reg Γ (.ex (.and a b)) = mdl reg Γ (.and a b) := by
   rw [mdl, Infer.traverse_and]
+  have ha : Sym.andArgs a = [a] := by
+    cases a <;> simp [Sym.andArgs]
+    exact absurd rfl (hna _ _)
+  have hargs : Sym.args (.ex (.and a b)) = [.ex a, .ex b] := by simp [Sym.args, Sym.andArgs, ha]
+  simp only [Gen.Infer.traverse, hargs]
   flags
   cases _root_.Infer.traverse reg Γ a <;> simp
   cases _root_.Infer.traverse reg Γ b <;> simp
 
-theorem tie_or (a b : E) : gen reg Γ (.ex (.or a b)) = mdl reg Γ (.or a b) := by
+theorem tie_or (a b : E) (hna : ∀ x y, a ≠ .or x y) : gen reg Γ (.ex (.or a b)) = mdl reg Γ (.or a b) := by
   rw [mdl, Infer.traverse_or]
+  have ha : Sym.orArgs a = [a] := by
+    cases a <;> simp [Sym.orArgs]
+    exact absurd rfl (hna _ _)
+  have hargs : Sym.args (.ex (.or a b)) = [.ex a, .ex b] := by simp [Sym.args, Sym.orArgs, ha]
+  simp only [Gen.Infer.traverse, hargs]
   flags
   cases _root_.Infer.traverse reg Γ a <;> simp
   cases _root_.Infer.traverse reg Γ b <;> simp
@@ -505,8 +516,8 @@ theorem traverse_tie (reg : Registry) (Γ : VarEnv) (e : E) (h : inDomain Γ e =
   | undef => simp [inDomain] at h
   | deriv v t => exact tie_deriv reg Γ v t
   | rel r a b => exact tie_rel reg Γ r a b
-  | and a b => exact tie_and reg Γ a b
-  | or a b => exact tie_or reg Γ a b
+  | and a b => exact tie_and reg Γ a b (by intro x y hxy; subst hxy; simp [inDomain] at h)
+  | or a b => exact tie_or reg Γ a b (by intro x y hxy; subst hxy; simp [inDomain] at h)
   | not a => exact tie_not reg Γ a
   | tt => exact tie_tt reg Γ
   | ff => exact tie_ff reg Γ
